@@ -691,3 +691,76 @@ pub(crate) fn fmt_format_bounded(args: core::fmt::Arguments<'_>) -> String {
     }
     unsafe { String::from_utf8_unchecked(v) }
 }
+
+/// Cut K7: stand-ins for the resolver and for the outbound connect attempt.
+pub(crate) mod netstub {
+    use std::io;
+    use std::net::SocketAddr;
+
+    pub(crate) static mut RESOLVED: [Option<SocketAddr>; 2] = [None, None];
+    pub(crate) static mut RESOLVE_CALLS: usize = 0;
+    pub(crate) static mut RESOLVE_FAILS: bool = false;
+    pub(crate) static mut CONNECT_CALLS: usize = 0;
+    pub(crate) static mut CONNECTED_TO: Option<SocketAddr> = None;
+
+    pub(crate) fn reset(list: [Option<SocketAddr>; 2], fails: bool) {
+        unsafe {
+            RESOLVED = list;
+            RESOLVE_FAILS = fails;
+            RESOLVE_CALLS = 0;
+            CONNECT_CALLS = 0;
+            CONNECTED_TO = None;
+        }
+    }
+    pub(crate) fn connect_calls() -> usize {
+        unsafe { CONNECT_CALLS }
+    }
+    pub(crate) fn connected_to() -> Option<SocketAddr> {
+        unsafe { CONNECTED_TO }
+    }
+    pub(crate) fn resolve_calls() -> usize {
+        unsafe { RESOLVE_CALLS }
+    }
+
+    pub(crate) struct Addrs {
+        list: [Option<SocketAddr>; 2],
+        i: usize,
+    }
+    impl Iterator for Addrs {
+        type Item = SocketAddr;
+        fn next(&mut self) -> Option<SocketAddr> {
+            while self.i < 2 {
+                let x = self.list[self.i];
+                self.i += 1;
+                if x.is_some() {
+                    return x;
+                }
+            }
+            None
+        }
+    }
+
+    pub(crate) fn lookup_host() -> io::Result<Addrs> {
+        unsafe {
+            RESOLVE_CALLS += 1;
+            if RESOLVE_FAILS {
+                return Err(io::Error::from(io::ErrorKind::NotFound));
+            }
+            Ok(Addrs { list: RESOLVED, i: 0 })
+        }
+    }
+
+    pub(crate) fn tcp_connect(
+        peer: SocketAddr,
+    ) -> io::Result<(Box<dyn crate::pipe::Source>, Box<dyn crate::pipe::Sink>)> {
+        unsafe {
+            CONNECT_CALLS += 1;
+            CONNECTED_TO = Some(peer);
+        }
+        Err(io::Error::from(io::ErrorKind::ConnectionRefused))
+    }
+}
+
+/// No-op replacement for dropping an `Arc<core::Context>`: the drop glue of `Context` reaches tokio's runtime types
+/// (which the Kani compiler cannot handle); fabricated contexts are never freed anyway.
+pub(crate) fn arc_ctx_drop_noop(_a: &mut std::sync::Arc<crate::core::Context>) {}
